@@ -21,6 +21,12 @@ def plan(tier):
                       useful_only=True), n, 110),
               (tm.Cfg('sim-lock-n3', [1, 1, 2], [1], max_round=3, max_height=2, nbyz=1, budget=-1, own_first=False,
                       useful_only=True), n, 110)]
+    # total voting power = 2 (mod 3): the +2/3 threshold is not a multiple of the arithmetic used (5 -> more than 3.33, i.e. 4)
+    p.sims.append((tm.Cfg('sim-lock-n3p122', [1, 2, 2], [1], max_round=2, max_height=2, nbyz=1, budget=4, own_first=False,
+                          useful_only=True), n, 100))
+    # locks must survive restarts (WAL replay re-runs the handlers; the signer refuses to sign again what it signed before)
+    p.sims.append((tm.Cfg('sim-lock-crash', [1, 1, 1, 1], [2], max_round=3, max_height=1, nbyz=1, budget=4, crashes=4,
+                          crash_set=[1, 3, 4], own_first=False, useful_only=True, torn=True), n, 130))
     p.rule_extra = 'Lock-related goals: a lock is taken, released by a later polka, renewed, and the locked block is proposed/prevoted.'
     byzcfg = tm.Cfg('trace-n4-byz', [1, 1, 1, 1], [1], max_round=10, max_height=4, nbyz=2, budget=-1, own_first=False,
                     useful_only=False, properties=[])
